@@ -364,7 +364,7 @@ func TestVerifRace_Stress(t *testing.T) {
 	ctl := hookctl.Install(vkit.Seed())
 	defer ctl.Uninstall()
 	ctl.SetStress(true)
-	n := vkit.N(24, 500)
+	n := vkit.N(40, 800)
 	r.ParallelCases(n, 2, func(i int) { stressRun(r, ctl, i) })
 	for _, v := range ctl.Violations() {
 		r.Violation("monitor/lock-order", 0, map[string]any{"message": v})
